@@ -72,6 +72,11 @@ if kind == "slow_start":
     time.sleep(spec.get("delay", 0.7))
 if kind == "ignore_term":
     signal.signal(signal.SIGTERM, signal.SIG_IGN)
+if spec.get("on_term") is not None:            # a clean SIGTERM handler: ends with THIS exit status (0 is "success")
+    signal.signal(signal.SIGTERM, lambda *a: os._exit(spec["on_term"]))
+if spec.get("self_exit") is not None:          # ends by itself after a while, with this exit status
+    signal.signal(signal.SIGALRM, lambda *a: os._exit(spec["self_exit"][1]))
+    signal.setitimer(signal.ITIMER_REAL, spec["self_exit"][0])
 if "term_delay" in spec:                       # reacts to SIGTERM, but only after a while
     def on_term(*a):
         time.sleep(spec["term_delay"])
@@ -243,6 +248,10 @@ class Boom(Exception):
     pass
 
 
+CHILD_KEYS = ("k", "code", "junk", "delay", "linger", "close_after", "term_delay", "stderr", "chatty", "falsy_result",
+              "on_term", "self_exit")
+
+
 async def _scenario(case, tmp, obs):
     import anyio
     from chuk_mcp.protocol.messages.json_rpc_message import JSONRPCMessage
@@ -252,7 +261,7 @@ async def _scenario(case, tmp, obs):
     me = os.getpid()
     script = os.path.join(tmp, "child.py")
     spec = {"kind": case["behaviour"]}
-    for key in ("k", "code", "junk", "delay", "linger", "close_after", "term_delay", "stderr", "chatty", "falsy_result"):
+    for key in CHILD_KEYS:
         if key in case:
             spec[key] = case[key]
     args = ["-S", "-E", script, json.dumps(spec)]
@@ -452,6 +461,81 @@ async def _scenario(case, tmp, obs):
                         obs["entered"] = True
                         await anyio.sleep_forever()
 
+    async def concurrent_body(scope):
+        """SEVERAL StdioClient objects alive at once in this process, each with its own child; the same request id is
+        used on every connection (per-connection counters all start at 1).  `order` is the order in which the
+        requests are registered and sent.  A request whose child died must not end with somebody else's answer."""
+        from chuk_mcp.transports.stdio.stdio_client import StdioClient
+
+        specs = case["concurrent"]
+        rid = case.get("rid", "1")
+        async with contextlib.AsyncExitStack() as stack:
+            cs = []
+            for sp in specs:
+                d = {"kind": sp["behaviour"]}
+                d.update({k: sp[k] for k in CHILD_KEYS if k in sp})
+                c = StdioClient(StdioParameters(command=sys.executable, args=["-S", "-E", script, json.dumps(d)]))
+                await stack.enter_async_context(c)
+                cs.append(c)
+            obs["entered"] = True
+            for c, sp in zip(cs, specs):
+                if waits_ready(dict(sp, moment="after")):
+                    with anyio.move_on_after(READY_TIMEOUT_S):
+                        while getattr(await c.get_streams()[0].receive(), "method", None) != "notifications/ready":
+                            pass
+            recs = [{"client": i, "x": f"{case.get('nonce', 'n')}-client{i}", "outcome": None, "behaviour": sp["behaviour"]}
+                    for i, sp in enumerate(specs)]
+            reqs.extend(recs)
+
+            async def ask(i):
+                c, sp, rec = cs[i], specs[i], recs[i]
+                t = 1.5 if answers(dict(sp), 1) else 0.7
+                try:
+                    if case.get("req_api", "legacy") == "legacy":
+                        with anyio.fail_after(t):
+                            m = await rx[i].receive()
+                        if getattr(m, "error", None) is not None:
+                            rec["outcome"] = "error"
+                        else:
+                            rec["outcome"], rec["payload"] = "returned", getattr(m, "result", None)
+                    else:
+                        r, w = c.get_streams()
+                        rec["payload"] = await send_message(r, w, "echo", {"x": rec["x"]}, timeout=t, message_id=rid)
+                        rec["outcome"] = "returned"
+                except TimeoutError:
+                    rec["outcome"] = "timeout"
+                except Exception as ex:  # noqa: BLE001
+                    rec["outcome"], rec["exc"] = "error", type(ex).__name__
+
+            rx = {}
+            if case.get("req_api", "legacy") == "legacy":
+                order = case.get("order", list(range(len(specs))))
+                for i in order:                                   # every connection registers its waiter ...
+                    rx[i] = cs[i].new_request_stream(rid)
+                for i in case.get("send_order", order):           # ... then the requests go out, one after the other
+                    await cs[i].send_json(JSONRPCMessage(jsonrpc="2.0", id=rid, method="echo", params={"x": recs[i]["x"]}))
+                    await anyio.sleep(0.1)
+            async with anyio.create_task_group() as atg:
+                for i in range(len(specs)):
+                    atg.start_soon(ask, i)
+            if path in ("cancel", "timeout"):
+                arm(scope, 0.05)
+                await anyio.sleep_forever()
+            clock["exit"] = time.monotonic()
+            if path == "exception":
+                raise Boom("exception in body")
+
+    @contextlib.asynccontextmanager
+    async def _noctx():
+        yield None, None
+
+    async def session_body(scope):
+        if case.get("concurrent"):
+            await concurrent_body(scope)
+        else:
+            async with clients() as (r, w):
+                await conversation(r, w, scope)
+
     async def run_path():
         try:
             with anyio.move_on_after(SCENARIO_TIMEOUT_S) as guard:
@@ -459,21 +543,18 @@ async def _scenario(case, tmp, obs):
                     await entry_moment()
                 elif path in ("normal", "exception"):
                     try:
-                        async with clients() as (r, w):
-                            await conversation(r, w, None)
+                        await session_body(None)
                     except Boom:
                         obs["exit_exc"] = "Boom"
                 elif path == "timeout":
                     # a timeout around the whole context
                     with anyio.move_on_after(3600) as scope:
-                        async with clients() as (r, w):
-                            await conversation(r, w, scope)
+                        await session_body(scope)
                 else:
                     # outer cancellation: the context lives in a scope that another task cancels
                     async with anyio.create_task_group() as tg:
                         with anyio.CancelScope() as inner:
-                            async with clients() as (r, w):
-                                await conversation(r, w, (tg, inner))
+                            await session_body((tg, inner))
             if guard.cancelled_caught:
                 obs["hang"] = True
         except BaseException as ex:  # noqa: BLE001
